@@ -9,6 +9,7 @@ from tradingenv.contracts import ETF, ES, FutureChain, Index
 
 LEVEL = "model_checking"
 NAN = float("nan")
+T_EARLY = T0 - timedelta(hours=1)
 A = ETF("A")
 B = ETF("B")
 F1 = ES(2021, 3)
@@ -43,6 +44,8 @@ def alphabet():
         ops.append(("d", k))
     for k in range(len(KEYS)):
         ops.append(("w", k))          # a withdrawn market: a quote with NaN on both sides
+    for k in range(len(KEYS)):
+        ops.append(("qe", k, 2))      # a quote delivered late: stamped one hour EARLIER than the others (accepted and recorded like any other)
     for c in range(3):
         ops.append(("c", c))
     for c in range(3):
@@ -87,11 +90,11 @@ def ref_apply(books, now, op):
         return books, CLOCKS[op[1]]
     sym = resolve(KEYS[op[1]], now)
     bk = books.setdefault(sym, RefBook())
-    if op[0] in ("q", "w"):
+    if op[0] in ("q", "w", "qe"):
         if bk.alive:
-            bid, ask = pairs()[op[2]] if op[0] == "q" else (NAN, NAN)
+            bid, ask = pairs()[op[2]] if op[0] != "w" else (NAN, NAN)
             bk.bid, bk.ask = bid, ask
-            bk.hist.append((T0, bid, ask))
+            bk.hist.append((T0 if op[0] != "qe" else T_EARLY, bid, ask))
     else:
         bk.bid, bk.ask, bk.alive = NAN, NAN, False
     return books, now
@@ -106,9 +109,9 @@ def impl_apply(ex, op):
             CHAIN.lead_contract(month=1)      # a query: must not change what the chain key addresses
         except Exception:
             pass                              # no deferred month listed once the last contract leads
-    elif op[0] in ("q", "w"):
-        bid, ask = pairs()[op[2]] if op[0] == "q" else (NAN, NAN)
-        ex.process_EventNBBO(EventNBBO(T0, KEYS[op[1]], bid, ask))
+    elif op[0] in ("q", "w", "qe"):
+        bid, ask = pairs()[op[2]] if op[0] != "w" else (NAN, NAN)
+        ex.process_EventNBBO(EventNBBO(T0 if op[0] != "qe" else T_EARLY, KEYS[op[1]], bid, ask))
     else:
         ex.process_EventContractDiscontinued(EventContractDiscontinued(T0, KEYS[op[1]]))
 
